@@ -35,17 +35,23 @@ func init() {
 			ids[e.HC] = id
 		}
 		m := map[string]interface{}{"ev": e.Ev, "hc": id}
+		seq := make([]int, 8) // the sequence number as its 8 big-endian bytes
+		for i, v := 7, e.Seq; i >= 0; i, v = i-1, v>>8 {
+			seq[i] = int(v & 0xff)
+		}
 		switch e.Ev {
 		case "enc":
 			iv := make([]int, len(e.IV))
 			for i, b := range e.IV {
 				iv[i] = int(b)
 			}
-			m["seq"], m["typ"], m["iv"], m["len"] = e.Seq, e.Typ, iv, e.Len
+			m["seq"], m["typ"], m["iv"], m["len"] = seq, e.Typ, iv, e.Len
 		case "dec":
-			m["seq"], m["typ"], m["ok"], m["alert"] = e.Seq, e.Typ, e.OK, e.Alert
+			m["seq"], m["typ"], m["ok"], m["alert"] = seq, e.Typ, e.OK, e.Alert
+		case "setseq":
+			m["seq"] = seq
 		case "seterr":
-			m["seq"], m["err"] = e.Seq, e.Err
+			m["seq"], m["err"] = seq, e.Err
 		}
 		b, _ := json.Marshal(m)
 		f.Write(append(b, '\n'))
